@@ -108,6 +108,8 @@ func (th *Thread) call(caller *frame, callpos token.Pos, fn Value, args []Value)
 		return th.callSSA(caller, callpos, fn.fn, args, fn.env)
 	case *ssa.Builtin:
 		return th.callBuiltin(caller, callpos, fn, args)
+	case rtypeMethod:
+		return th.rtypeInvoke(fn)
 	case noopCall:
 		if fn.res.Len() == 0 {
 			return nil
@@ -130,7 +132,9 @@ func (th *Thread) callSSA(caller *frame, callpos token.Pos, fn *ssa.Function, ar
 		name := fn.String()
 		if ext, ok := intrinsics[name]; ok {
 			th.visible = e.visibleCaller(caller)
-			return ext(fr, args)
+			if r := ext(fr, args); r != (useBody{}) {
+				return r
+			}
 		}
 		if ext := intrinsicByPkg(fn); ext != nil {
 			return ext(fr, args)
@@ -265,6 +269,9 @@ func (th *Thread) prepareCall(fr *frame, call *ssa.CallCommon) (fn Value, args [
 		}
 		if recv.t == nil {
 			th.goPanic("runtime error: invalid memory address or nil pointer dereference (method call on nil interface)")
+		}
+		if recv.t == rtypeMarker {
+			return rtypeMethod{call.Method.Name(), recv.v.(*rtypeObj).t}, nil
 		}
 		f := th.eng.w.prog.LookupMethod(recv.t, call.Method.Pkg(), call.Method.Name())
 		if f == nil {
